@@ -53,9 +53,54 @@ func (fr *Frame) setResult(res ssa.Value, v *SVal) {
 	if res != nil {
 		fr.vals[res] = v
 	}
+	// remember the latest result per callee name (spec: resultof(Name, i)); kept in ghost
+	// state so that it is merged along paths like any other state
+	if fr.pendingCall != nil && !fr.inlined && v != nil {
+		for _, n := range fr.pendingCall {
+			if n == "" {
+				continue
+			}
+			fr.x.resTypes[n] = v.T
+			for k, l := range v.flat() {
+				t := l.Term
+				if t == "" && l.Loc != nil && l.Loc.Kind == LRef && len(l.Loc.Path) == 0 {
+					t = l.Loc.Base
+				}
+				if t == "" {
+					continue
+				}
+				srt := "Int"
+				if l.T != nil {
+					srt = sortOf(l.T)
+				}
+				fr.ghostSet(fmt.Sprintf("$res:%s:%d", n, k), srt, t)
+			}
+		}
+		fr.pendingCall = nil
+	}
+}
+
+func (fr *Frame) ghostSet(name, srt, term string) {
+	fr.cur.sorts[name] = srt
+	fr.cur.m[name] = term
+	if fr.x.discover {
+		for _, l := range fr.x.curLoops {
+			fr.x.loopMods[l][name] = true
+		}
+	}
+}
+
+type callResult struct {
+	v     *SVal
+	block *ssa.BasicBlock
 }
 
 func (fr *Frame) call(in ssa.Instruction, cc *ssa.CallCommon, res ssa.Value) {
+	fr.callInner(in, cc, res)
+	fr.pendingCall = nil
+}
+
+func (fr *Frame) callInner(in ssa.Instruction, cc *ssa.CallCommon, res ssa.Value) {
 	var rt types.Type = cc.Signature().Results()
 	if cc.Signature().Results().Len() == 1 {
 		rt = cc.Signature().Results().At(0).Type()
@@ -66,20 +111,35 @@ func (fr *Frame) call(in ssa.Instruction, cc *ssa.CallCommon, res ssa.Value) {
 	}
 	// call-site guards (guard dominance obligations)
 	if !fr.inlined && fr.contract != nil && len(fr.contract.Guards) > 0 {
-		name := ""
+		name, qual := "", ""
 		if cc.IsInvoke() {
 			name = cc.Method.Name()
+			if n, ok := cc.Value.Type().(*types.Named); ok {
+				qual = n.Obj().Name() + "." + name
+			}
 		} else if f := cc.StaticCallee(); f != nil {
 			name = f.Name()
+			if recv := f.Signature.Recv(); recv != nil {
+				t := recv.Type()
+				if p, ok := t.(*types.Pointer); ok {
+					t = p.Elem()
+				}
+				if n, ok := t.(*types.Named); ok {
+					qual = n.Obj().Name() + "." + name
+				}
+			}
 		}
+		fr.pendingCall = []string{name, qual}
 		for _, g := range fr.contract.Guards {
-			if g.Name != name {
+			if g.Name != name && (qual == "" || g.Name != qual) {
 				continue
 			}
 			env := fr.newEnv()
 			env.contract = fr.contract
 			env.at = fr.curBlock
 			// the call's arguments are visible as callee_<parameter name>
+			// ... and positionally as callee_arg0, callee_arg1, ... (interface methods, whose
+			// parameters are often unnamed: the receiver is not counted)
 			if f := cc.StaticCallee(); f != nil && !cc.IsInvoke() {
 				for i, p := range f.Params {
 					if i < len(cc.Args) {
@@ -87,16 +147,28 @@ func (fr *Frame) call(in ssa.Instruction, cc *ssa.CallCommon, res ssa.Value) {
 					}
 				}
 			}
+			for i, a := range cc.Args {
+				env.vars[fmt.Sprintf("callee_arg%d", i)] = fr.val(a)
+			}
 			fr.x.guardsSeen[g.Name] = true
-			fr.oblige("guard", name, fr.evalBool(g.Expr, env), g.Src)
+			detail := name
+			if g.Label != "" {
+				detail += ":" + g.Label
+			}
+			fr.x.onlyProps = g.Only
+			fr.oblige("guard", detail, fr.evalBool(g.Expr, env), g.Src)
+			fr.x.onlyProps = nil
 		}
 		// ghost: remember that a function of this name has been called (spec: called(name))
-		if name != "" {
-			fr.cur.sorts["$called:"+name] = "Bool"
-			fr.cur.m["$called:"+name] = "true"
+		for _, nm := range []string{name, qual} {
+			if nm == "" {
+				continue
+			}
+			fr.cur.sorts["$called:"+nm] = "Bool"
+			fr.cur.m["$called:"+nm] = "true"
 			if fr.x.discover {
 				for _, l := range fr.x.curLoops {
-					fr.x.loopMods[l]["$called:"+name] = true
+					fr.x.loopMods[l]["$called:"+nm] = true
 				}
 			}
 		}
@@ -132,7 +204,9 @@ func (fr *Frame) call(in ssa.Instruction, cc *ssa.CallCommon, res ssa.Value) {
 	for _, a := range cc.Args {
 		args = append(args, fr.val(a))
 	}
+	fr.curCallArgs = cc.Args
 	fr.callFn(fn, bind, args, rt, res)
+	fr.curCallArgs = nil
 }
 
 func (fr *Frame) callFn(fn *ssa.Function, bind, args []*SVal, rt types.Type, res ssa.Value) {
@@ -367,8 +441,9 @@ func (fr *Frame) callContract(fn *ssa.Function, c *Contract, args []*SVal, rt ty
 	}
 	old := fr.cur.clone()
 	// havoc modified heaps
-	if c.ModifiesAll {
-		fr.havocAll("contract of " + c.Key + " modifies everything")
+	if c.ModifiesAll || !c.HasModifies {
+		// no modifies clause means no frame promise at all
+		fr.havocAll("contract of " + c.Key + " has no modifies clause / modifies everything")
 	} else {
 		fr.cur = fr.cur.clone()
 		for _, m := range c.Modifies {
@@ -387,8 +462,28 @@ func (fr *Frame) callContract(fn *ssa.Function, c *Contract, args []*SVal, rt ty
 					fr.cur.m[n] = x.em.Fresh(n+".call", srt)
 				}
 				if x.discover {
+					// which argument names the modified cell? (lets an enclosing loop havoc only
+					// that cell when the argument is loop-invariant)
+					var root ssa.Value
+					if cell != "" {
+						for j, a := range args {
+							if j >= len(fr.curCallArgs) {
+								break
+							}
+							if (kindOf(a.T) == KSlice && a.F != nil && a.F[0].Term == cell) || (a.F == nil && a.Term == cell) {
+								root = addrRoot(fr.curCallArgs[j])
+							}
+						}
+					}
 					for _, l := range x.curLoops {
 						x.loopMods[l][n] = true
+						if l.Parent() != fr.fn {
+							root = nil
+						}
+						if x.loopRoots[l] == nil {
+							x.loopRoots[l] = map[string][]ssa.Value{}
+						}
+						x.loopRoots[l][n] = append(x.loopRoots[l][n], root)
 					}
 				}
 			}
@@ -484,7 +579,10 @@ func (fr *Frame) pureResult(fn *ssa.Function, args []*SVal, rt types.Type) *SVal
 // pureArgLeaves flattens an argument for use as uninterpreted-function input. Slices
 // contribute their contents (the backing row), offset and length; pointers contribute the
 // pointee's leaves.
-func (fr *Frame) pureArgLeaves(a *SVal) [][2]string {
+func (fr *Frame) pureArgLeaves(a *SVal) [][2]string { return fr.pureArgLeavesD(a, true) }
+
+// (only a top-level pointer argument is dereferenced; pointers nested in structs are scalars)
+func (fr *Frame) pureArgLeavesD(a *SVal, top bool) [][2]string {
 	x := fr.x
 	var out [][2]string
 	switch kindOf(a.T) {
@@ -502,7 +600,7 @@ func (fr *Frame) pureArgLeaves(a *SVal) [][2]string {
 		return out
 	case KPtr:
 		pt, ok := a.T.Underlying().(*types.Pointer)
-		if ok {
+		if ok && top {
 			var loc *Loc
 			if a.Loc != nil {
 				loc = a.Loc
@@ -510,7 +608,10 @@ func (fr *Frame) pureArgLeaves(a *SVal) [][2]string {
 				loc = &Loc{Kind: LRef, Base: a.Term, Root: pt.Elem(), T: pt.Elem()}
 			}
 			v := fr.readLocIn(fr.cur, loc)
-			return fr.pureArgLeaves(v)
+			return fr.pureArgLeavesD(v, false)
+		}
+		if ok && a.Loc != nil && a.Term == "" {
+			return [][2]string{{"Int", "0"}}
 		}
 	}
 	if a.F != nil {
@@ -520,12 +621,12 @@ func (fr *Frame) pureArgLeaves(a *SVal) [][2]string {
 				if f.T == nil {
 					f.T = st.Field(i).Type()
 				}
-				out = append(out, fr.pureArgLeaves(f)...)
+				out = append(out, fr.pureArgLeavesD(f, false)...)
 			}
 			return out
 		}
 		for _, f := range a.F {
-			out = append(out, fr.pureArgLeaves(f)...)
+			out = append(out, fr.pureArgLeavesD(f, false)...)
 		}
 		return out
 	}
@@ -561,7 +662,7 @@ func (fr *Frame) invoke(recv *SVal, cc *ssa.CallCommon, args []*SVal, rt types.T
 	fr.oblige("safe:nil", "invoke:"+name, sNot(sEq(recv.Term, "0")), "")
 	// interface contract
 	key := ""
-	if n, ok := cc.Value.Type().(*types.Named); ok {
+	if n, ok := cc.Value.Type().(*types.Named); ok && n.Obj().Pkg() != nil {
 		key = shortPkg(n.Obj().Pkg().Path()) + "." + n.Obj().Name() + "." + name
 	} else if isErrorType(cc.Value.Type()) {
 		key = "error." + name
